@@ -1,7 +1,8 @@
 (* C10: one misbehaving connection cannot disturb the others.  Model: Model/Listener.v (accept
    loop + per-connection tasks at event granularity; tokio::spawn's panic isolation, the
    scheduler, TCP and OpenSSL are assumptions of the model).  Proofs: Proofs/ListenerFacts.v *)
-Require Import DV.Base.Bytes DV.Model.Listener DV.Proofs.ListenerFacts.
+Require Import DV.Base.Bytes DV.Spec.Wire DV.Model.Avp DV.Model.Message DV.Model.Stream DV.Model.Server DV.Model.Listener
+  DV.Proofs.ListenerFacts DV.Proofs.ListenerServe.
 
 (* whatever the other connections do and however events interleave, connection c ends exactly
    where its own events alone take it: nothing of another connection reaches it *)
@@ -35,3 +36,25 @@ Theorem C10_legacy_refuted : forall es s c c',
   forall s', lrun lstep_legacy s es = Some s' -> lstep_legacy s' (LAccept c') = None.
 Proof. exact legacy_refuted. Qed.
 Print Assumptions C10_legacy_refuted.
+
+(* "Answers are only ever written to the connection that carried the request": composed with the per-connection
+   loop of Model/Server.v (any handler h), the octets written to connection c are the serve loop's output on the
+   octets c itself delivered while it was being served - for every trace, whatever the other connections do *)
+Theorem C10_answers_stay_home : forall h lim d es tls s c,
+  lrun lstep (linit tls) es = Some s ->
+  conn_written h lim d (conns s c) = answers h lim d (own_input tls (proj c es))
+  \/ (conns s c = None /\ conn_written h lim d (conns s c) = []).
+Proof. exact answers_stay_home. Qed.
+Print Assumptions C10_answers_stay_home.
+
+Theorem C10_same_own_events_same_answers : forall h lim d es es' tls s s' c,
+  lrun lstep (linit tls) es = Some s -> lrun lstep (linit tls) es' = Some s' ->
+  proj c es = proj c es' -> conn_written h lim d (conns s c) = conn_written h lim d (conns s' c).
+Proof. exact same_own_events_same_answers. Qed.
+Print Assumptions C10_same_own_events_same_answers.
+
+(* a connection's Diameter input grows only by its own data arriving while it is served *)
+Theorem C10_input_is_own_data : forall tls x e y, cstep tls (Some x) e = Some (Some y) ->
+  inb y = inb x ++ match e, ph x with LData _ bs, PServing => bs | _, _ => [] end.
+Proof. exact cstep_inb. Qed.
+Print Assumptions C10_input_is_own_data.
